@@ -34,6 +34,21 @@ class SrcError(Exception):
     pass
 
 
+class SrcRuntimeError(SrcError, RuntimeError):
+    """the source's own exception may belong to any family"""
+
+
+class SrcLookupError(SrcError, KeyError):
+    pass
+
+
+class SrcStopAsyncish(SrcError, TimeoutError):
+    pass
+
+
+EXC = {'plain': SrcError, 'runtime': SrcRuntimeError, 'lookup': SrcLookupError, 'timeout': SrcStopAsyncish}
+
+
 def execute(sc):
     A = _A
     import gc
@@ -54,7 +69,7 @@ def execute(sc):
         objs = [VALUES[c] if not isinstance(VALUES[c], list) else [] for c in codes]
     fail_at = src.get('fail_at')
     steps = src.get('steps') or []
-    the_exc = SrcError('source failed')
+    the_exc = EXC[src.get('exccls', 'plain')]('source failed')
     ctl.log('Config', which=sc['which'], n=len(objs), fail_at=-1 if fail_at is None else fail_at, srckind=kind)
     keep = [objs]
     pools_before = len(rt.CExecutor.all_pools)
